@@ -337,6 +337,13 @@ def derived_fields(M, c):
     meths = {n: m for n, m in c.methods.items() if '@' not in n}
     assigned_in = {}
     for name, m in meths.items():
+        # parameters stored unchanged in a field stand for that field:  self.A = a ; self.D = f(a)
+        stored_param = {}
+        for s in ast.walk(m.node):
+            if isinstance(s, ast.Assign) and isinstance(s.value, ast.Name) and s.value.id in m.params:
+                for t in s.targets:
+                    if isinstance(t, ast.Attribute) and isinstance(t.value, ast.Name) and t.value.id == 'self':
+                        stored_param.setdefault(s.value.id, t.attr)
         for s in ast.walk(m.node):
             tgts = s.targets if isinstance(s, ast.Assign) else ([s.target] if isinstance(s, (ast.AnnAssign, ast.AugAssign)) and getattr(s, 'value', None) is not None else [])
             for t in tgts:
@@ -346,6 +353,8 @@ def derived_fields(M, c):
                     continue
                 fld = t.attr if whole else t.value.attr
                 deps = self_loads(s.value) - {fld}
+                if not isinstance(s.value, ast.Name):
+                    deps |= {stored_param[n.id] for n in ast.walk(s.value) if isinstance(n, ast.Name) and isinstance(n.ctx, ast.Load) and n.id in stored_param} - {fld}
                 # a plain copy of a parameter or a constant derives nothing; a method call on self counts through what it reads (one level)
                 for call in ast.walk(s.value):
                     if isinstance(call, ast.Call) and isinstance(call.func, ast.Attribute) and isinstance(call.func.value, ast.Name) and call.func.value.id == 'self' \
@@ -365,6 +374,71 @@ def derived_fields(M, c):
     return res
 
 
+def stale_writers(M, c, only=None):
+    """[(fn, stmt, object text, field written, derived field D, deps)]: writers of a field that some derived field of class c depends on which do not bring the
+    derived field up to date afterwards (see stale_derived_values)"""
+    der = derived_fields(M, c)
+    out = []
+    if not der:
+        return out
+    meths = dict(c.methods)
+    ctor_side = {n for n, m in meths.items() if n == '__init__' or M.ctor_only(m)}
+    holders = set()
+    for fn in M.all_funcs():
+        if fn.path != c.path:
+            continue
+        for s in ast.walk(fn.node):
+            if isinstance(s, ast.Assign) and isinstance(s.value, ast.Call) and isinstance(s.value.func, ast.Name) and s.value.func.id == c.name:
+                for t in s.targets:
+                    if isinstance(t, ast.Attribute) and isinstance(t.value, ast.Name) and t.value.id == 'self':
+                        holders.add(t.attr)
+    for D, (deps, refreshers, only_elem) in sorted(der.items()):
+        if only is not None and D != only:
+            continue
+        if only_elem and not refreshers:
+            continue
+        refreshing = set(refreshers)
+        for n, m in meths.items():
+            if any(isinstance(k, ast.Call) and isinstance(k.func, ast.Attribute) and isinstance(k.func.value, ast.Name) and k.func.value.id == 'self' and k.func.attr in refreshers
+                   for k in ast.walk(m.node)):
+                refreshing.add(n)
+        for fn in M.all_funcs():
+            if fn.path != c.path or fn.parent is not None:
+                continue
+            inside = fn.cls is c
+            if inside and (fn.name in ctor_side or fn.name in refreshers):
+                continue
+            for s in ast.walk(fn.node):
+                tgts = s.targets if isinstance(s, ast.Assign) else ([s.target] if isinstance(s, (ast.AugAssign, ast.AnnAssign)) else [])
+                for t in tgts:
+                    b = t
+                    while isinstance(b, ast.Subscript):
+                        b = b.value
+                    if not (isinstance(b, ast.Attribute) and b.attr in deps):
+                        continue
+                    obj = b.value
+                    if inside and isinstance(obj, ast.Name) and obj.id == 'self':
+                        objtxt = 'self'
+                    elif not inside and isinstance(obj, ast.Attribute) and isinstance(obj.value, ast.Name) and obj.value.id == 'self' and obj.attr in holders:
+                        objtxt = 'self.' + obj.attr
+                    else:
+                        continue
+                    ok = False
+                    for k in ast.walk(fn.node):
+                        if getattr(k, 'lineno', 0) < s.lineno:
+                            continue
+                        if isinstance(k, ast.Call) and isinstance(k.func, ast.Attribute) and ast.unparse(k.func.value) == objtxt and k.func.attr in refreshing:
+                            ok = True
+                        kt = k.targets if isinstance(k, ast.Assign) else ([k.target] if isinstance(k, (ast.AugAssign, ast.AnnAssign)) else [])
+                        for t2 in kt:
+                            if isinstance(t2, ast.Attribute) and t2.attr == D and ast.unparse(t2.value) == objtxt:
+                                ok = True
+                            if not inside and isinstance(t2, ast.Attribute) and ast.unparse(t2) == objtxt and k is not s:
+                                ok = True
+                    out.append((fn, s, objtxt, b.attr, D, deps, ok))
+    return [w for w in out if not w[6]] if only is not None else out
+
+
 def stale_derived_values(ctx, rule, prefixes, what):
     """A stored figure computed from other fields must be recomputed by whoever changes those fields afterwards: a setter (or any method) that assigns a field
     some derived field depends on, and neither reassigns the derived field, nor calls a method of the object that does, nor replaces the whole object, leaves
@@ -374,71 +448,11 @@ def stale_derived_values(ctx, rule, prefixes, what):
     for c in M.classes.values():
         if not any(c.path.startswith(p_) for p_ in prefixes):
             continue
-        der = derived_fields(M, c)
-        if not der:
-            continue
-        meths = {n: m for n, m in c.methods.items()}
-        ctor_side = {n for n, m in meths.items() if n == '__init__' or M.ctor_only(m)}
-        # who holds instances of c in a field:  self.<h> = c(...)  anywhere in the module  ->  writes through self.<h>.<A>
-        holders = set()
-        for fn in M.all_funcs():
-            if fn.path != c.path:
-                continue
-            for s in ast.walk(fn.node):
-                if isinstance(s, ast.Assign) and isinstance(s.value, ast.Call) and isinstance(s.value.func, ast.Name) and s.value.func.id == c.name:
-                    for t in s.targets:
-                        if isinstance(t, ast.Attribute) and isinstance(t.value, ast.Name) and t.value.id == 'self':
-                            holders.add(t.attr)
-        for D, (deps, refreshers, only_elem) in sorted(der.items()):
-            if only_elem and not refreshers:
-                continue
-            refreshing = set(refreshers)
-            # methods that call a refresher on self refresh too (one level is what the package uses)
-            for n, m in meths.items():
-                if any(isinstance(k, ast.Call) and isinstance(k.func, ast.Attribute) and isinstance(k.func.value, ast.Name) and k.func.value.id == 'self' and k.func.attr in refreshers
-                       for k in ast.walk(m.node)):
-                    refreshing.add(n)
-            for fn in M.all_funcs():
-                if fn.path != c.path or fn.parent is not None:
-                    continue
-                inside = fn.cls is c
-                if inside and (fn.name in ctor_side or fn.name in refreshers):
-                    continue
-                for s in ast.walk(fn.node):
-                    tgts = s.targets if isinstance(s, ast.Assign) else ([s.target] if isinstance(s, (ast.AugAssign, ast.AnnAssign)) else [])
-                    for t in tgts:
-                        b = t
-                        while isinstance(b, ast.Subscript):
-                            b = b.value
-                        if not (isinstance(b, ast.Attribute) and b.attr in deps):
-                            continue
-                        obj = b.value
-                        if inside and isinstance(obj, ast.Name) and obj.id == 'self':
-                            objtxt = 'self'
-                        elif not inside and isinstance(obj, ast.Attribute) and isinstance(obj.value, ast.Name) and obj.value.id == 'self' and obj.attr in holders:
-                            objtxt = 'self.' + obj.attr
-                        else:
-                            continue
-                        n_checked += 1
-                        # does the same function bring D up to date afterwards?  (reassign obj.D, call obj.<refreshing method>(), or rebuild the holder object)
-                        ok = False
-                        for k in ast.walk(fn.node):
-                            if getattr(k, 'lineno', 0) < s.lineno:
-                                continue
-                            if isinstance(k, ast.Call) and isinstance(k.func, ast.Attribute) and ast.unparse(k.func.value) == objtxt and k.func.attr in refreshing:
-                                ok = True
-                            kt = k.targets if isinstance(k, ast.Assign) else ([k.target] if isinstance(k, (ast.AugAssign, ast.AnnAssign)) else [])
-                            for t2 in kt:
-                                if isinstance(t2, ast.Attribute) and t2.attr == D and ast.unparse(t2.value) == objtxt:
-                                    ok = True
-                                if not inside and isinstance(t2, ast.Attribute) and ast.unparse(t2) == objtxt and k is not s:
-                                    ok = True
-                        if not inside:
-                            # the whole assignment may itself be a rebuild of the holder:  self.h = replace(self.h, A=v)
-                            pass
-                        if not ok:
-                            ctx.violation(rule, what, fn.site(s), '%s assigns %s.%s, from which %s.%s was computed (%s), and does not recompute it: the stored %s goes stale'
-                                          % (fn.qn, objtxt, b.attr, c.name, D, ', '.join(sorted(deps)), D), key='%s|stale|%s.%s|%s' % (rule, c.name, D, fn.qn))
+        for fn, s, objtxt, attr, D, deps, ok in stale_writers(M, c):
+            n_checked += 1
+            if not ok:
+                ctx.violation(rule, what, fn.site(s), '%s assigns %s.%s, from which %s.%s was computed (%s), and does not recompute it: the stored %s goes stale'
+                              % (fn.qn, objtxt, attr, c.name, D, ', '.join(sorted(deps)), D), key='%s|stale|%s.%s|%s' % (rule, c.name, D, fn.qn))
     ctx.holds(rule, what + ' (derived stored values are refreshed by every writer of what they derive from: %d writer sites)' % n_checked, None)
 
 
